@@ -15,7 +15,9 @@ property's own predicate on the OBSERVED values, independently of the cached lev
 * `cardinality()` (f64, given as its bit pattern) against the exact count in exact rational arithmetic:
   not NaN, not negative; `+inf` only if exact·(1 + size·2⁻⁵⁰) ≥ f64::MAX; otherwise finite with
   |f − exact| ≤ exact·size·2⁻⁵⁰. IEEE arithmetic itself is outside the model (partial);
-* laws: |a∨b| + |a∧b| = |a| + |b| and |¬a| = 2ⁿ − |a| on the observed numbers.
+* laws: |a∨b| + |a∧b| = |a| + |b| and |¬a| = 2ⁿ − |a| on the observed numbers;
+* `C09.res`: the same clauses on the RESULT of a library operation (exists, for_all, restrict, pick,
+  substitute, …), with the support clause evaluated unconditionally against the truth table.
 -/
 namespace B.Drive.C09
 open B B.Drive B.Count
@@ -187,6 +189,33 @@ def handle (key : String) (ins obs : List String) : Verdict :=
       { agree := model == observed, model, fail, nontrivial := A.size > 2 && B.size > 2 && mor.size > 2 && mand.size > 2,
         tags := [s!"law-n{n}", if (oor.toNat?.getD 0) ≥ 2 ^ 64 then "count>2^64" else "count<2^64"] }
     | _, _, _ => Verdict.bad "args"
+  | "C09.res", [op, f, _vars, _arg], [oRes, oExact, oClause, oBits, oSup, oSpv, oSize] =>
+    -- the counting functions on the RESULT of a library operation: the library claims its results are
+    -- canonical, so the support clause is evaluated unconditionally (a dead or redundant node fails it)
+    match parseArr? f, parseArr? oRes with
+    | some F, some R =>
+      let n := numVars R
+      let model := s!"{showO (exactCardO R)} {showO (clauseCardO R)} {showNats (supportSet R)} {showPairs (sizePerVariable R)} {R.size}"
+      let observed := s!"{oExact} {oClause} {oSup} {oSpv} {oSize}"
+      let fail : Option String :=
+        match oExact.toNat?, oClause.toNat?, parseHex? oBits, parseNats? oSup, parsePairs? oSpv, oSize.toNat? with
+        | some ex, some cl, some bits, some sup, some spv, some sz =>
+          let br := brute R
+          firstFail [
+            if numVars F == n then none else some "result-num_vars",
+            if n ≤ maxTT then (if popcount (ttOf R n) == ex then none else some "exact≠popcount") else none,
+            match br with | some (_, c) => if c == ex then none else some "exact≠Σpaths" | none => none,
+            match br with | some (p, _) => if p == cl then none else some "clause≠#paths" | none => none,
+            if n ≤ maxTT then (if ttSupport (ttOf R n) n == sup then none else some "support≠essential-variables") else none,
+            if spv.map (·.1) == sup then none else some "spv-keys≠support",
+            if (spv.map (·.2)).foldl (· + ·) 0 + 2 == sz ∨ (sz < 2 ∧ spv.isEmpty) then none else some "spv-sum≠size-2",
+            if spv.all (·.2 > 0) then none else some "spv-zero-entry",
+            checkF64 bits ex sz ]
+        | _, _, _, _, _, _ => some s!"outcome:{oExact},{oClause},{oBits},{oSup},{oSpv}"
+      { agree := model == observed, model, fail, nontrivial := R.size > 2 && R != F,
+        tags := ["res", s!"op-{op}", if isCanon R then "res-canon" else "res-noncanon"] }
+    | _, _ => { agree := false, model := "unparsable", fail := some s!"outcome:{oRes}", nontrivial := false, tags := ["res"] }
+  | "C09.res", _, [o] => { agree := false, model := "ok", fail := some s!"outcome:{o}", nontrivial := false, tags := ["res"] }
   | "C09.bad", [a], [oExact, oClause] =>
     match parseArr? a with
     | some A =>
